@@ -1,11 +1,11 @@
 SPECIFICATION Spec
 CONSTANTS
-  FixDurs = {0,1,2}
-  ScanDurs = {0,1,2}
-  RestDurs = {0,1,2}
-  NodeDurs = {0,1,2}
-  UseSw = TRUE
-  UseFs = FALSE
+  FixDurs = {1}
+  ScanDurs = {0,1}
+  RestDurs = {0,1}
+  NodeDurs = {0,1}
+  UseSw = FALSE
+  UseFs = TRUE
   AllowRestart = FALSE
   InitSw = {"GOOD"}
 INVARIANT InvNeverOverdue
@@ -23,6 +23,7 @@ PROPERTY RestoreInWindow
 PROPERTY OsScanInWindow
 PROPERTY InstantOnlyAtZero
 PROPERTY OffTicksChangeNothing
-PROPERTY FixCompletes
+PROPERTY ScanCompletes
+PROPERTY RestoreCompletes
 PROPERTY OsScanCompletes
 CHECK_DEADLOCK TRUE
